@@ -201,5 +201,107 @@ Definition hist_judge := judge hist_model hist_oeqb hist_ok (fun _ => 0%N).
 (* histories whose backlog is too big for everything to be fetched in one cycle: the monitors only (what is pending and
    what it records, nothing executed is selected, nothing fully selected stays pending); how much is selected is not
    compared with the everything-fits model *)
+(* known class 1 (F55): a GetMessages round whose first pending report is so wide (more than 2500 messages, one source
+   chain) that its messages alone exceed maxObservationLength - truncateObservation returns "no more data to truncate" *)
+Definition histmon_known (i : hist_in) : N :=
+  let '(st, snap) := i in
+  if N.eqb st 2 then
+    match snap with
+    | [(_, reps, ex)] =>
+        match pending_spec reps ex with
+        | r :: _ => if N.ltb 2500 (p_hi r - p_lo r) then 1%N else 0%N
+        | [] => 0%N
+        end
+    | _ => 0%N
+    end
+  else 0%N.
 Definition histmon_judge :=
-  judge (fun _ : hist_in => @Ok (list (N * rep) * list (N * N) * list (N * N)) ([], [], [])) (fun _ _ => true) hist_ok (fun _ => 0%N).
+  judge (fun _ : hist_in => @Ok (list (N * rep) * list (N * N) * list (N * N)) ([], [], [])) (fun _ _ => true) hist_ok histmon_known.
+
+(* ---------- part cycles: whole histories of long-lived plugins over one evolving destination ----------
+   input: MessageVisibilityInterval and the start of the clock (minutes), the event list (Model/ExecCycles.v).
+   output: per cycle event, in order: the (lower bound, limit) arguments of every CommitReportsGTETimestamp call, the
+   pending commit reports of the GetCommitReports outcome, the (chain, sequence number) pairs of the transmitted
+   report (Plugin.Reports decoded), the pending commit reports of the Filter outcome.
+   The model evaluates every cycle on the destination's CURRENT content ([run_from]); nothing is carried from one
+   cycle to the next except that content.
+   Conditions of the simulated histories: honest oracles read the same destination within a cycle, every committed
+   message is readable, no token data, nothing costly, everything fits the limits, fewer than 1000 reports in the
+   window; a message is not ready iff it is sequenced and the destination's nonce for its sender is not the one
+   before its own. *)
+Require Export Verif.Model.ExecCycles.
+
+Definition cyc_in := (N * N * list event)%type.
+Definition cyc_out := res (list cyc_obs).
+Definition cyc_model (i : cyc_in) : cyc_out :=
+  let '(V, t0, evs) := i in Ok (run_from V (init t0) evs).
+Definition crep_eqb := pair_eqb N.eqb rep_eqb.
+Definition obs_eqb (a b : cyc_obs) : bool :=
+  let '(r1, p1, o1, q1) := a in let '(r2, p2, o2, q2) := b in
+  list_eqb (pair_eqb N.eqb N.eqb) r1 r2 && list_eqb crep_eqb p1 p2 && list_eqb msg_eqb o1 o2 && list_eqb crep_eqb q1 q2.
+Definition cyc_oeqb : cyc_out -> cyc_out -> bool := res_eqb (list_eqb obs_eqb).
+
+(* the executable history property, by plain interval arithmetic on the destination's content *)
+Definition st_exec_runs (st : dest) (c : N) : list range :=
+  map (fun m => (snd m, snd m)) (filter (fun m => N.eqb (fst m) c) (d_exec st)).
+Definition st_window (V : N) (st : dest) (c : N) : list creport :=
+  filter (fun r => N.eqb (cr_chain r) c && N.leb (d_now st - V) (cr_ts r)) (d_reports st).
+Definition st_open (st : dest) : bool := negb (d_global st || d_destcursed st).
+Definition st_live (st : dest) (c : N) : bool := memN c (d_known st) && negb (memN c (d_cursed st)).
+Definition seqs_of (lo hi : N) : list N := seq_from lo (N.to_nat (hi - lo + 1)).
+Definition one_cycle_ok (V : N) (st : dest) (nobs : N) (o : cyc_obs) : bool :=
+  let '(reads, pend1, off, pend3) := o in
+  let live := filter (st_live st) (d_known st) in
+  (* (a) what is read: from the lower bound given by the CURRENT clock and the configured interval *)
+  (if st_open st
+   then N.eqb (N.of_nat (length reads)) nobs &&
+        forallb (fun rd => N.eqb (fst rd) (d_now st - V) && N.eqb (snd rd) 1000) reads
+   else match reads with [] => true | _ => false end) &&
+  (* (b) pending = the reports in the window with an unexecuted message, each with executed set = executed inside it *)
+  list_eqb crep_eqb pend1
+    (if st_open st
+     then flat_map (fun c => map (pair c) (pending_spec (map to_rep (st_window V st c)) (st_exec_runs st c))) live
+     else []) &&
+  (* (c) nothing is lost: an unexecuted, ready message of a report in the window of a live chain is in the report *)
+  (negb (st_open st) ||
+   forallb (fun c => forallb (fun r => forallb (fun s => mem_msg (c, s) (d_exec st) || mem_msg (c, s) (d_blocked st) ||
+                                                          mem_msg (c, s) off)
+                                               (seqs_of (cr_lo r) (cr_hi r)))
+                             (st_window V st c)) live) &&
+  (* (d) nothing executed is executed again, nothing is invented, nothing twice *)
+  forallb (fun m => st_open st && st_live st (fst m) && negb (mem_msg m (d_exec st)) && negb (mem_msg m (d_blocked st)) &&
+                    existsb (fun r => N.leb (cr_lo r) (snd m) && N.leb (snd m) (cr_hi r)) (st_window V st (fst m))) off &&
+  nodupb msg_eqb off &&
+  (* (e) after the Filter round a report is pending iff one of its messages is neither executed nor in the report *)
+  list_eqb crep_eqb pend3
+    (flat_map (fun cr => let c := fst cr in let r := snd cr in
+                         let rest := filter (fun s => negb (mem_msg (c, s) off)) (unexecuted r) in
+                         match rest with
+                         | [] => []
+                         | _ => [(c, mkRep (p_id r) (p_lo r) (p_hi r)
+                                       (map (fun s => (s, s)) (filter (fun s => negb (memN s rest)) (seqs_of (p_lo r) (p_hi r)))))]
+                         end) pend1).
+
+Definition obs_offered (o : cyc_obs) : list msgid := snd (fst o).
+Fixpoint cyc_ok_from (V : N) (st : dest) (evs : list event) (outs : list cyc_obs) : bool :=
+  match evs with
+  | [] => match outs with [] => true | _ => false end
+  | e :: evs' =>
+      match e with
+      | ECycle nobs _ =>
+          match outs with
+          | [] => false
+          | o :: outs' =>
+              (* what lands with the cycle is taken from the report the implementation built *)
+              one_cycle_ok V st nobs o && cyc_ok_from V (step_off (obs_offered o) st e) evs' outs'
+          end
+      | _ => cyc_ok_from V (step_off [] st e) evs' outs
+      end
+  end.
+Definition cyc_ok (i : cyc_in) (o : cyc_out) : bool :=
+  let '(V, t0, evs) := i in
+  match o with
+  | Ok outs => cyc_ok_from V (init t0) evs outs
+  | _ => false              (* an honest oracle failed, or honest oracles disagreed *)
+  end.
+Definition cyc_judge := judge cyc_model cyc_oeqb cyc_ok (fun _ => 0%N).
